@@ -22,7 +22,8 @@ type inclusionLine struct {
 
 type inclusionLineSlice []inclusionLine
 
-type inclusionLineMap map[string]inclusionLine
+// inclusionLineMap maps the text of a line to every position at which the line occurs
+type inclusionLineMap map[string][]inclusionLine
 
 func (h inclusionLineSlice) Less(i, j int) bool {
 	return h[i].order < h[j].order
@@ -52,7 +53,7 @@ func buildIncludeExceptString(parser *Parser, parsedLine ParsedLine) (string, er
 
 	inclusionLines := make(inclusionLineSlice, 0, len(includeMap))
 	for _, value := range includeMap {
-		inclusionLines = append(inclusionLines, value)
+		inclusionLines = append(inclusionLines, value...)
 	}
 
 	contentWithoutExclusions := stringFromInclusionLines(inclusionLines)
@@ -104,7 +105,7 @@ func replaceSuffixes(inputLines *bytes.Buffer, suffixReplacements map[string]str
 	return sb.String(), nil
 }
 
-func removeExclusions(parser *Parser, excludeFileNames []string, includeMap map[string]inclusionLine, definitions map[string]string) {
+func removeExclusions(parser *Parser, excludeFileNames []string, includeMap inclusionLineMap, definitions map[string]string) {
 	for _, fileName := range excludeFileNames {
 		logger.Debug().Msgf("Processing exclusions from %s", fileName)
 		excludeContent, _ := parseFile(parser, fileName, definitions)
@@ -136,7 +137,9 @@ func buildinclusionLineMap(parser *Parser, includeFileName string) (inclusionLin
 			// with one `##!=>` per affix) are not entries: every one of them is kept, none can be excluded
 			key = fmt.Sprintf("%s\x00%d", entry, index)
 		}
-		includeMap[key] = inclusionLine{entry, index}
+		// a line that occurs more than once stays at each of its positions: the text of a prefix or suffix
+		// of a nested include file may well equal another line
+		includeMap[key] = append(includeMap[key], inclusionLine{entry, index})
 		index++
 	}
 	return includeMap, definitions
